@@ -99,4 +99,11 @@ CHECKS = {
         assumptions=["sequentially consistent interleavings at the package's lock operations and at datastore operations; true parallel memory effects are not modelled",
                      "crypto and protobuf code runs atomically between two scheduling points"],
     ),
+    "C18": dict(
+        harness="pkg__protoio", run="TestVerifC18", level="exploration",
+        technique="exhaustive enumeration of frame-size sequences x every chunking of the byte stream (all 2^(n-1) compositions for streams <= 14 bytes, <= 2 short reads otherwise) x every truncation offset, plus all byte strings of length <= 2 and a malformed-length catalogue, against the real readers and writers",
+        rule="frame sizes {0,2,3,limit-1,limit,limit+1,127,128} with limits {8,130}, sequences of 1-3 frames, varint / uint32 big- and little-endian variants; distinct = (variant, limit, kind of case, frames read, error) classes",
+        assumptions=["message bodies are wrapperspb values of the exact encoded size (a 1-byte body is not a valid protobuf message and is not covered)",
+                     "the un-delimited 'full' reader/writer pair is not chunk tolerant by construction and is not part of the property's round-trip claim"],
+    ),
 }
